@@ -13,6 +13,7 @@
   through `Env.mkSpan` / `Env.off`, and the run under ANY kind is the run under the index-based kind with every span and
   slice offset re-based afterwards — for every grammar, mode, fuel and error type (`c10_kind_invariant`).
 -/
+import ChumskyModel.Proofs.Lemmas.ExtKind
 import ChumskyModel.Model.Input
 import ChumskyModel.Proofs.Lemmas.KindSim
 import ChumskyModel.Proofs.Lemmas.PrattKind
@@ -366,6 +367,18 @@ theorem c10_recursive_pratt_kind_invariant (x : XEnv) (env : Env) (hs : env.kind
   have := (runX_kind_all x (kindRel_of_slice env hs k ts e hd) hatom hops n).1 m g st
   rwa [G.mapConst_of_constOk _ g hg] at this
 
+/-- … and for any number of Pratt tables referring to each other (statement-level and expression-level tables, a table inside
+    the operator parsers of another: `EEnv` without nested-input extensions), at every grammar position -/
+theorem c10_pratt_tables_kind_invariant (ee : EEnv) (hp : ee.PrattOnly) (env : Env) (hs : env.kind = .slice) (k : InKind)
+    (ts : List (Nat × Nat)) (e : Nat × Nat) (hd : constOkL env.defs = true)
+    (n : Nat) (m : Mode) (g : G) (hg : g.constOk = true) (st : St) :
+    let env' : Env := { env with kind := k, tspans := ts, eoi := e }
+    runE ee n env' m g (st.mapSp env'.rebase) = (runE ee n env m g st).mapSp env'.rebase := by
+  intro env'
+  have := (runE_kind_all ee (kindRel_of_slice env hs k ts e hd) hp n).1 m g st
+  rwa [G.mapConst_of_constOk _ g hg] at this
+
+#print axioms c10_pratt_tables_kind_invariant
 #print axioms c10_recursive_pratt_kind_invariant
 #print axioms c10_pratt_kind_invariant
 #print axioms replay_agrees
